@@ -90,10 +90,14 @@ Definition check_trace (ops : list sop) (expected : list cev) (expres : list (N 
 
 (** ** [open] on an image described by its size and the bytes at the two slots *)
 Definition slots_image (size : Z) (a b : list N) : image :=
+  let ea := ROOT_A + zlen a in
+  let eb := ROOT_B + zlen b in
   {| isize := size;
      ibyte := fun x =>
-       if (ROOT_A <=? x) && (x <? ROOT_A + zlen a) then nth (Z.to_nat (x - ROOT_A)) a 0%N
-       else if (ROOT_B <=? x) && (x <? ROOT_B + zlen b) then nth (Z.to_nat (x - ROOT_B)) b 0%N
+       if x <? ROOT_A then 0%N
+       else if x <? ea then nth (Z.to_nat (x - ROOT_A)) a 0%N
+       else if x <? ROOT_B then 0%N
+       else if x <? eb then nth (Z.to_nat (x - ROOT_B)) b 0%N
        else 0%N |}.
 
 (** (generation, heads, fact cache, free offset, next_root) of the writer [open] returns; [None] = error. *)
